@@ -26,7 +26,7 @@ for p in props:
         na.append({"property_id": pid, "reason": na_reasons.get(pid, "not built: no Lean model/theorems for this property yet; not claimed at a weaker technique")})
 man = {
     "version": 1,
-    "setup_cmd": "cd lean && lake build && lake build pkgdriver",
+    "setup_cmd": "./check --gen-main && cd lean && lake build && lake build pkgdriver",
     "hooks": {"guard": "PKGCORE_VERIF", "enable": "no in-tree hooks: the harness imports /repo/src directly (editable install) and instruments from outside",
               "baseline_off_cmd": "/verif/tools/baseline.py", "source_commits": [], "add_only": True},
     "engines": [{"name": "lean4-proof+correspondence", "path": "check", "serves_properties": [c["property_id"] for c in checks],
